@@ -6,8 +6,8 @@
     serde_json's reader makes of it is a parameter of [to_value] (known findings K1/K2).
     Statements only. *)
 From Coq Require Import String.
-From Coq Require Import List NArith ZArith Bool Sorted.
-From HDW Require Import Lib.Outcome Lib.Bytes Lib.Decimal Model.Json Model.JsonText Model.Num Spec.Eip712TypeSpec Proofs.JsonTextProofs.
+From Coq Require Import List NArith ZArith Bool Sorted Lia.
+From HDW Require Import Lib.Outcome Lib.Bytes Lib.Decimal Model.Json Model.JsonText Model.Num Spec.Eip712TypeSpec Proofs.JsonTextProofs Proofs.JsonRoundTrip.
 From HDW Require Props.C13.
 Import ListNotations.
 Open Scope N_scope.
@@ -36,6 +36,54 @@ Theorem C13j_object_is_map : forall rnd kvs m,
   forall k, obj_get k m = last_member (to_value rnd) k kvs None.
 Proof. exact to_value_object_is_map. Qed.
 Print Assumptions C13j_object_is_map.
+
+(** print / parse round trip: every syntax tree without floating-point literals (integers in the
+    u64 / negative i64 range; strings and member names any sequences of Unicode scalar values, which
+    the printer writes as UTF-8 with the quote, the backslash and control characters escaped; at most
+    127 levels) is read back from its compact text exactly — members in order, duplicates included,
+    whatever the nesting *)
+Theorem C13j_print_parse_roundtrip : forall t, simple 127 t -> parse_doc (print t) = Ok t.
+Proof. exact parse_print. Qed.
+Print Assumptions C13j_print_parse_roundtrip.
+
+(** more fuel never changes what the value parser returns *)
+Theorem C13j_fuel_irrelevant : forall k f d s, pv f d s <> OutOfFuel -> pv (k + f) d s = pv f d s.
+Proof. exact pv_more_fuel. Qed.
+Print Assumptions C13j_fuel_irrelevant.
+
+(** the bridge from texts to the value-level theorems of C06 / C08 / C09 / C11 / C13: reading the printed
+    text of a tree and then applying any reader [f] is applying [f] to the tree's value *)
+Theorem C13j_text_pipeline : forall {A} rnd t (f : json -> outcome A), simple 127 t ->
+  bind (json_of_text rnd (print t)) f = bind (to_value rnd t) f.
+Proof. intros A rnd t f H. unfold json_of_text. rewrite (parse_print t H). reflexivity. Qed.
+Print Assumptions C13j_text_pipeline.
+
+(** a negative integer literal in a number field is refused, from the text on *)
+Theorem C13j_negative_literal_refused : forall rnd z, (- 2 ^ 63 <= z <= -1)%Z ->
+  bind (json_of_text rnd (45 :: decimal (Z.to_N (- z)))) permissive_u256 = Err.
+Proof.
+  intros rnd z Hz. change (45 :: decimal (Z.to_N (- z))) with (print (TNum (NumI z))).
+  rewrite (C13j_text_pipeline rnd (TNum (NumI z)) permissive_u256 Hz). cbn [to_value bind].
+  apply C13.C13_reject_negative_int. lia.
+Qed.
+Print Assumptions C13j_negative_literal_refused.
+
+(** non-vacuity of the round trip: a transaction-shaped tree meets its hypothesis *)
+Example C13j_roundtrip_witness :
+  let t := TObj [(s2l "nonce", TNum (NumU 18446744073709551615)); (s2l "to", TStr [34; 92; 10; 233; 8364; 128512]);
+                 (s2l "accessList", TArr [TObj [(s2l "address", TStr (s2l "0x11")); (s2l "storageKeys", TArr [])]; TNull]);
+                 (s2l "v", TNum (NumI (-9223372036854775808))); (s2l "nonce", TBool true)] in
+  simple 127 t /\ print t = s2l "{""nonce"":18446744073709551615,""to"":""\""\\\u000aé€😀"",""accessList"":[{""address"":""0x11"",""storageKeys"":[]},null],""v"":-9223372036854775808,""nonce"":true}".
+Proof.
+  split; [|vm_compute; reflexivity].
+  cbn [simple fst snd]. unfold plain.
+  repeat match goal with
+  | |- _ /\ _ => split
+  | |- True => exact I
+  | |- Forall _ _ => repeat constructor
+  end; try reflexivity; try (vm_compute; reflexivity); try (cbn; lia).
+Qed.
+Print Assumptions C13j_roundtrip_witness.
 
 (** non-vacuity: a document with a duplicate member, a negative integer, a float and an escape *)
 Example C13j_witness :
